@@ -19,7 +19,7 @@ ASSUMPTIONS = ['tilt-free wavefronts only (tilt is C04)', 'all-zero masks are re
 PLAN = {'quick': {'gen': 8}, 'thorough': {'gen': 16, 'tests': 1, 'docs': 1}}
 REQUIRED_BUCKETS = ['in:ee', 'in:oo', 'in:eo', 'in:oe', 'out:even', 'out:odd', 'dx:iso', 'dx:aniso', 'du:iso', 'du:aniso',
                     'prop<shape', 'prop=shape', 'mask', 'nomask', 'dir:pupil->image', 'dir:image->pupil', 'chain:2',
-                    'mask+prop', 'repeated', 'segmented']
+                    'mask+prop', 'repeated', 'segmented', 'broadband']
 REQUIRED_ANCHORS = ['probe:propagate_dft', 'anchor:_dft_alpha', 'anchor:_mask_shift', 'anchor:dft2',
                     'anchor:intersection_shift']
 REQUIRED_ORACLES = ['dft=fraunhofer', 'dft=fraunhofer:meta', 'dft=fraunhofer:outside=0']
@@ -41,8 +41,33 @@ def install(ctx, lentil):
     probe.wrap_function(lentil.propagate.propagate_dft, dft_oracle, ctx, 'propagate_dft')
 
 
+def broadband(ctx, lentil, rng):
+    """One pupil, several wavelengths in sequence (and the first again), sampling given in every accepted form; the online
+    oracle checks each propagation, so nothing may be carried over from the previous wavelength or call."""
+    for i in range(ctx.count(12, 80)):
+        shape = gen.rshape(rng, 4, 16)
+        sup = gen.support(rng, shape)
+        dxv = float(rng.uniform(1e-3, 4e-3))
+        duv = float(rng.uniform(4e-6, 2e-5))
+        dx = [dxv, (dxv, dxv), [dxv, dxv * 1.2], np.array([dxv, dxv])][i % 4]
+        du = [duv, (duv, duv * 0.8), [duv, duv], np.array([duv, duv * 1.3])][(i // 4) % 4]
+        z = float(rng.uniform(1, 20))
+        pupil = lentil.Pupil(amplitude=gen.amplitude(rng, sup), opd=gen.opd(rng, shape, 7e-7), pixelscale=dx, focal_length=z)
+        os_ = int(rng.integers(1, 4))
+        osh = gen.rshape(rng, 2, 10)
+        shp = [osh, list(osh), np.array(osh), osh[0]][i % 4]
+        wls = [float(x) for x in rng.uniform(4e-7, 2e-6, size=4)]
+        ctx.case({'broadband': wls, 'in': list(shape), 'forms': [i % 4, (i // 4) % 4]}, ['broadband'])
+        for wl in wls + wls[:1]:
+            try:
+                lentil.propagate_dft(lentil.Wavefront(wl) * pupil, du, shape=shp, oversample=os_)
+            except Exception:
+                pass
+
+
 def workload(ctx, lentil):
     rng = ctx.rng
+    broadband(ctx, lentil, rng)
     n = ctx.count(150, 1000)
     hi = 24 if ctx.tier == 'quick' else 48
     for i in range(n):
